@@ -133,7 +133,9 @@ pub fn dispatch(name: &str, args: &[&str]) -> Option<String> {
             // 2. the request, parsed by the real request parser so that the address comes from the real code
             let mut raw = b"GET / HTTP/1.1\r\nHost: x\r\n".to_vec();
             if args[5] != "-" {
-                raw.extend(b"X-Forwarded-For: ");
+                // header names are case-insensitive: the spelling varies with the value (proxies send any of these)
+                let spell: [&[u8]; 4] = [b"X-Forwarded-For: ", b"x-forwarded-for: ", b"X-FORWARDED-FOR: ", b"X-forwarded-for: "];
+                raw.extend(spell[args[5].bytes().map(|b| b as usize).sum::<usize>() % 4]);
                 raw.extend(unhex(args[5]));
                 raw.extend(b"\r\n");
             }
